@@ -84,8 +84,13 @@ def explicit(B, G, n, strings, custom=False, do_rho=True):
         for L in "AB":
             m = np.stack([B.params("U%s_re" % L, (2, 2)), B.params("U%s_im" % L, (2, 2))])
             mats[L] = B.tensor(m)
+        # ... and a DIAGONAL user unitary S = diag(1, i): it leaves probabilities alone but not amplitudes
+        sm = np.zeros((2, 2, 2), dtype=object if B.symbolic else float)
+        sm[...] = O.frac(0)
+        sm[0, 0, 0], sm[1, 1, 1] = O.frac(1), O.frac(1)
+        mats["S"] = B.tensor(sm)
         ud = U_.create_dict(**mats)
-        G.fact("create_dict_keeps_defaults", set(ud.keys()) == set("XYZAB"), sorted(ud.keys()))
+        G.fact("create_dict_keeps_defaults", set(ud.keys()) == set("XYZABS"), sorted(ud.keys()))
     else:
         ud = None
     libdict = ud if ud is not None else st.unitary_dict
@@ -359,7 +364,7 @@ def jobs(tier):
     J[-1]["opts"] = dict(extreme=dict(scale=1.0, points=1))  # no parameters: one real-torch run checks the constants in floating point
     add("explicit-n1", "explicit", n=1, strings=all_strings(1))
     add("explicit-n2", "explicit", n=2, strings=all_strings(2))
-    add("custom-n2", "explicit", n=2, strings=["AB", "XA", "BY", "AA"], custom=True)
+    add("custom-n2", "explicit", n=2, strings=["AB", "XA", "BY", "AA", "SX", "ZS"], custom=True)
     add("two-dictionaries-n2", "two_dictionaries", n=2, strings=["AX", "XA", "ZA"])
     if tier == "quick":
         add("explicit-n3", "explicit", n=3, strings=["XYZ", "ZYX", "YYX", "XZY", "ZZY", "YXX", "ZZZ", "YZY"])
